@@ -24,10 +24,10 @@ let s_graph g =
   (match g.ginf with
    | None -> add "0"
    | Some i ->
-     add "1"; add (string_of_int (List.length i.g_nodes)); List.iter (fun x -> add (s_str x)) i.g_nodes;
-     add (string_of_int (List.length i.g_edges));
-     List.iter (fun ((u, v), w) -> add (s_str u); add (s_str v); add (s_dec w)) i.g_edges;
-     add (string_of_int (int_of_nat i.g_n)); add (string_of_int (int_of_nat i.g_m)));
+     add "1"; add (string_of_int (List.length i.gi_nodes)); List.iter (fun x -> add (s_str x)) i.gi_nodes;
+     add (string_of_int (List.length i.gi_edges));
+     List.iter (fun ((u, v), w) -> add (s_str u); add (s_str v); add (s_dec w)) i.gi_edges;
+     add (string_of_int (int_of_nat i.gi_n)); add (string_of_int (int_of_nat i.gi_m)));
   Buffer.contents b
 let p_res f = function
   | Ok x -> print_endline ("OK " ^ f x)
